@@ -251,8 +251,8 @@ def _export_synsets(lexids: Sequence[int], version: VersionInfo) -> list[lmf.Syn
     synsets: list[lmf.Synset] = []
     for id, pos, ili, _, rowid in find_synsets(lexicon_rowids=lexids):
         ilidef = _export_ili_definition(rowid)
-        if ilidef and not ili:
-            ili = 'in'  # special case for proposed ILIs
+        if not ili and next(find_proposed_ilis(synset_rowid=rowid), None) is not None:
+            ili = 'in'  # special case for proposed ILIs (with or without a definition)
         ss: lmf.Synset = {
             'id': id,
             'ili': ili or '',
